@@ -19,6 +19,7 @@ import asyncio
 import json
 import re
 import signal
+import datetime
 import decimal
 import warnings
 from typing import Any
@@ -94,6 +95,11 @@ KNOWN_WITNESSES_2 = [
     (False, "{{ a | sort }}{{ a | sort_numeric }}{{ a | uniq }}{% if a contains x %}{% endif %}",
      {"a": [decimal.Decimal("NaN"), decimal.Decimal(1), decimal.Decimal("sNaN")], "x": decimal.Decimal("sNaN")}),
     (False, "{% for k in d %}{{ d.zzz }}{% endfor %}", {"d": _dd()}), (False, "{% for k in d %}{{ d[k[0]] }}{{ d.q }}{% endfor %}", {"d": _dd()}),
+    (False, "{{ now | datetime: format: 5 }}{{ 1 | datetime: format: x }}", {"now": datetime.datetime(2020, 1, 1), "x": [1]}),
+    (False, "{{ x | datetime }}", {"x": 2 ** 62}), (False, "{{ x | datetime: format: 'short' }}", {"x": -(2 ** 62)}),
+    (False, "{{ '4611686018427387904' | date: '%Y' }}{{ x | date: '%Y' }}", {"x": str(2 ** 62)}), (False, "{{ x | json: y }}", {"x": {"a": 1}, "y": 2 ** 62}),
+    (False, "{{ 10e4299 }}{% for x in (10e4299..10e4299) %}{% endfor %}", {}), (False, "{% cycle 'a${-100e4298}', 1 %}", {}),
+    (False, "{% for x in 1000e4297 %}{% endfor %}", {}), (False, "{{ 10e4298 }}{{ \"${-1e4298}\" }}", {}),
     (True, "{% tablerow i in (1..3) cols: x %}{{ i }}{% endtablerow %}", {"x": [1]}),
     (True, "{% tablerow i in (1..3) cols: x %}{{ i }}{% endtablerow %}", {"x": None}),
     (True, "{% tablerow i in (1..3) cols: nosuch %}{{ i }}{% endtablerow %}", {}),
